@@ -406,6 +406,12 @@ def checkInv (q : Q K) : Bool :=
   checkRoot q && checkChildren q && checkParents q && checkLeafProxy q && checkProxyLeaf q && checkDepth q &&
   checkFree q.freeList && checkFreeBound q && decide (q.nodes.size ≤ MAXN) && decide (q.proxies.size ≤ MAXN)
 
+/-- the root carries `NodeIndex::invalid()` as its parent (what stops `refit` at the root) -/
+def checkRootParent (q : Q K) : Bool :=
+  match q.nodes[0]? with
+  | some r => r.parent == MAXN
+  | none => true
+
 /-- D: a node flagged DIRTY is queued in `dirty_nodes` -/
 def checkDirty (q : Q K) : Bool :=
   (List.range q.nodes.size).all fun n =>
